@@ -1,6 +1,7 @@
 (* C19 — Escape and Unescape are inverse and Escape yields a literal.
    This file only states the property theorems; proofs are in Proofs/EscapeProofs.v. *)
 From Verif Require Import Base.Prelude Gen.EscapeGen Model.Escape Proofs.EscapeProofs.
+From Verif Require Import Gen.ParseLitGen Model.Tree Model.Spec Model.ParseLit Proofs.ParseLitProofs Proofs.ParseLitSem.
 
 (* Full statement: for EVERY string of valid Unicode scalars (what a valid UTF-8 string decodes to),
    whatever unicode.IsPrint says about each rune, Unescape (Escape s) = s.
@@ -31,3 +32,177 @@ Example C19_witness :
      917505; 92; 92; 92; 35]
   /\ unescape is_word (escape is_print s) = Ok s.
 Proof. vm_compute. split; reflexivity. Qed.
+
+
+(* ==========================================================================================
+   "Escape yields a literal", on the model of the pattern parser (Model/ParseLit.v: countCaptures +
+   scanRegex + scanBackslash/scanBasicBackslash/scanCharEscape + reduceConcatenation, tied to
+   syntax.Parse by leg c19-parse on every run; tables generated from parser.go in Gen/ParseLitGen.v).
+
+   (b1) For EVERY string s of valid runes, every IsPrint / IsWordChar / case oracle and every option
+   set without IgnoreCase and RightToLeft -- so: default, IgnorePatternWhitespace, ECMAScript, RE2,
+   Unicode, Multiline, Singleline, ExplicitCapture and all their combinations -- Parse(Escape(s))
+   succeeds and its tree is Capture0 over exactly the literal s (Empty / One c / Multi s).
+   Oracle facts used: the metacharacters are not word characters; and, only under
+   IgnorePatternWhitespace, IsPrint is false on TAB LF VT FF CR (both checked against the running
+   Go toolchain by the legs).  IgnoreCase: see C19_escape_ignorecase_refuted (expected: the pattern
+   then matches case-insensitively).  RightToLeft is outside the parser model (sampled by c19-literal). *)
+Theorem C19_escape_parses_to_literal :
+  forall (is_print is_word_char : Z -> bool) (to_lower : Z -> Z)
+         (is_cased participates ci_single : Z -> bool) (ci_set_id : Z -> Z),
+    (forall c, In c meta -> is_word_char c = false) ->
+    forall opts,
+      useI opts = false -> useRTL opts = false ->
+      (useX opts = true -> forall c, 9 <= c <= 13 -> is_print c = false) ->
+      forall s, Forall valid_rune s ->
+        parse_lit is_word_char to_lower is_cased participates ci_single ci_set_id opts (escape is_print s)
+        = Ok (PTree (PRoot opts (lit_body (clear_I opts) s))).
+Proof.
+  intros ip iw tl ic pa cs ci Hm o HI HR HX s Hv.
+  exact (escape_parses_to_literal ip iw tl ic pa cs ci Hm o HI HX HR s Hv).
+Qed.
+Print Assumptions C19_escape_parses_to_literal.
+
+(* (b2) The same for \A Escape(s) \z : the tree is Capture0(Concat [Beginning; literal s; End]). *)
+Theorem C19_anchored_escape_parses :
+  forall (is_print is_word_char : Z -> bool) (to_lower : Z -> Z)
+         (is_cased participates ci_single : Z -> bool) (ci_set_id : Z -> Z),
+    (forall c, In c meta -> is_word_char c = false) ->
+    forall opts,
+      useI opts = false -> useRTL opts = false ->
+      (useX opts = true -> forall c, 9 <= c <= 13 -> is_print c = false) ->
+      forall s, Forall valid_rune s ->
+        parse_lit is_word_char to_lower is_cased participates ci_single ci_set_id opts
+                  ([92; 65] ++ escape is_print s ++ [92; 122])
+        = Ok (PTree (PRoot opts (anchored_body (clear_I opts) s))).
+Proof.
+  intros ip iw tl ic pa cs ci Hm o HI HR HX s Hv.
+  exact (anchored_escape_parses ip iw tl ic pa cs ci Hm o HI HX HR s Hv).
+Qed.
+Print Assumptions C19_anchored_escape_parses.
+
+(* (b3) ... and that tree, read by the reference semantics (Model/Spec.v), matches a text t exactly
+   when t = s: the search from offset 0 returns the match [0, |s|) if t = s and no match otherwise,
+   for every environment (text, oracles) and every fuel >= 3. Together with (b2) and
+   C19_unescape_escape this is the whole property on the models. *)
+Theorem C19_escape_matches_only_s :
+  forall (is_print is_word_char : Z -> bool) (to_lower : Z -> Z)
+         (is_cased participates ci_single : Z -> bool) (ci_set_id : Z -> Z),
+    (forall c, In c meta -> is_word_char c = false) ->
+    forall opts,
+      useI opts = false -> useRTL opts = false ->
+      (useX opts = true -> forall c, 9 <= c <= 13 -> is_print c = false) ->
+      forall s, Forall valid_rune s ->
+      exists t,
+        parse_lit is_word_char to_lower is_cased participates ci_single ci_set_id opts
+                  ([92; 65] ++ escape is_print s ++ [92; 122]) = Ok (PTree t) /\
+        forall (e : env) (f : nat),
+          (txt e = s ->
+             find e (S (S (S f))) (node_of_ptree t) false 0 (-1) =
+             Ok (Some {| pos := zlen s; caps := cap_push 0 (span 0 (zlen s)) [] |})) /\
+          (txt e <> s -> find e (S (S (S f))) (node_of_ptree t) false 0 (-1) = Ok None).
+Proof.
+  intros ip iw tl ic pa cs ci Hm o HI HR HX s Hv.
+  exists (PRoot o (anchored_body (clear_I o) s)). split.
+  - exact (anchored_escape_parses ip iw tl ic pa cs ci Hm o HI HX HR s Hv).
+  - intros e f. exact (anchored_find e (clear_I o) (clear_I_not_ci o) (clear_I_not_rtl o HR) f o s).
+Qed.
+Print Assumptions C19_escape_matches_only_s.
+
+(* The parser fragment is total: on every pattern (runes >= 0, as `range` over a string yields) and
+   every option set the model returns a tree, "outside the fragment" or a syntax error -- never a
+   Go run-time fault (Crash) and never runs out of fuel: each round of scanRegex's outer loop
+   consumes a rune (C10 for this fragment). *)
+Theorem C19_parse_lit_total :
+  forall (is_word_char : Z -> bool) (to_lower : Z -> Z)
+         (is_cased participates ci_single : Z -> bool) (ci_set_id : Z -> Z) opts p,
+    Forall (fun c => 0 <= c) p ->
+    (exists r, parse_lit is_word_char to_lower is_cased participates ci_single ci_set_id opts p = Ok r) \/
+    (exists code, parse_lit is_word_char to_lower is_cased participates ci_single ci_set_id opts p = Err code).
+Proof.
+  intros iw tl ic pa cs ci o p Hp.
+  pose proof (parse_lit_total iw tl ic pa cs ci o p Hp) as F.
+  destruct (parse_lit iw tl ic pa cs ci o p) as [r|c|w|]; cbn in F; try contradiction; eauto.
+Qed.
+Print Assumptions C19_parse_lit_total.
+
+(* Obligations on the tables generated from parser.go (category table, classifier thresholds) against
+   the metacharacters generated from escape.go: every rune that ends a run of ordinary characters is
+   escaped by Escape (specials; in x-mode also blanks and '#'), no metacharacter starts another escape,
+   and a stopper that is not special is a blank (what makes scanRegex's loop advance). *)
+Theorem C19_category_table_ok :
+  (forall c, is_special c = true -> zmem c meta = true) /\
+  (forall c, is_stopper_x c = true -> zmem c meta = true \/ 9 <= c <= 13) /\
+  (forall c, is_stopper_x c = true -> is_special c = false -> is_space c = true \/ c = 35) /\
+  forallb (fun c => first_ok c && negb ((c =? 120) || (c =? 117)) && (0 <=? c)) meta = true /\
+  pl_bounds_ok = true.
+Proof.
+  split; [exact special_in_meta|]. split; [exact stopper_x_in_meta|].
+  split; [exact stopper_not_special_is_blank|]. split; [exact meta_first_ok | exact pl_bounds_ok_true].
+Qed.
+Print Assumptions C19_category_table_ok.
+
+(* Under IgnoreCase the statement (b1) is false, as it should be: Escape("a") = "a" parses to a
+   case-insensitive set, not to the literal. (Not a defect: Escape promises a literal up to the
+   matching options in force.) *)
+Theorem C19_escape_ignorecase_refuted :
+  exists (is_print is_word_char : Z -> bool) (to_lower : Z -> Z)
+         (is_cased participates ci_single : Z -> bool) (ci_set_id : Z -> Z) s,
+    (forall c, In c meta -> is_word_char c = false) /\ Forall valid_rune s /\
+    parse_lit is_word_char to_lower is_cased participates ci_single ci_set_id PL_IgnoreCase (escape is_print s)
+    <> Ok (PTree (PRoot PL_IgnoreCase (lit_body (clear_I PL_IgnoreCase) s))).
+Proof.
+  exists (fun r => (32 <=? r) && (r <? 127)), (fun r => (97 <=? r) && (r <=? 122)), (fun r => r),
+         (fun r => (97 <=? r) && (r <=? 122)), (fun _ => true), (fun _ => false), (fun r => r), [97].
+  split.
+  - intros c Hc. vm_compute in Hc.
+    repeat (destruct Hc as [Hc|Hc]; [subst c; reflexivity|]). contradiction.
+  - split; [constructor; [unfold valid_rune; lia | constructor]|].
+    vm_compute. discriminate.
+Qed.
+Print Assumptions C19_escape_ignorecase_refuted.
+
+(* Non-vacuity and model sanity (vm_compute): concrete oracles; the witness string has a
+   metacharacter, blanks, controls, a non-printable BMP rune and astral runes. *)
+Definition c19_print (r : Z) : bool := (32 <=? r) && (r <? 127) || (r =? 128512).
+Definition c19_word (r : Z) : bool :=
+  (48 <=? r) && (r <=? 57) || (65 <=? r) && (r <=? 90) || (97 <=? r) && (r <=? 122) || (r =? 95).
+Definition c19_parse (o : Z) (p : list Z) : res pres :=
+  parse_lit c19_word (fun r => r) (fun _ => false) (fun _ => true) (fun _ => false) (fun r => r) o p.
+Definition c19_s : list Z := [97; 46; 32; 10; 7; 27; 888; 128512; 917505; 92; 35; 123].
+
+Example C19_parse_witness_default :
+  c19_parse 0 (escape c19_print c19_s) = Ok (PTree (PRoot 0 (BSingle (PnMulti 0 c19_s)))).
+Proof. vm_compute. reflexivity. Qed.
+Example C19_parse_witness_xmode_ecma_re2 :
+  c19_parse PL_IgnorePatternWhitespace (escape c19_print c19_s) = Ok (PTree (PRoot 32 (BSingle (PnMulti 32 c19_s)))) /\
+  c19_parse PL_ECMAScript (escape c19_print c19_s) = Ok (PTree (PRoot 256 (BSingle (PnMulti 256 c19_s)))) /\
+  c19_parse (PL_RE2 + PL_IgnorePatternWhitespace) (escape c19_print c19_s) = Ok (PTree (PRoot 544 (BSingle (PnMulti 544 c19_s)))).
+Proof. vm_compute. repeat split. Qed.
+(* the unescaped text is NOT parsed to the literal (the escaping matters), blanks vanish in x-mode *)
+Example C19_parse_unescaped_differs :
+  c19_parse 0 [97; 46] = Ok POutside /\
+  c19_parse PL_IgnorePatternWhitespace [97; 32; 98; 35; 99] = Ok (PTree (PRoot 32 (BSingle (PnMulti 32 [97; 98])))).
+Proof. vm_compute. split; reflexivity. Qed.
+(* escapes, errors, ECMAScript readings: \x41\u0042\103 ; \q ; \x{4g} ; \x4 ; \1 ; \k<0> ; \d\d *)
+Example C19_parse_escape_forms :
+  c19_parse 0 [92; 120; 52; 49; 92; 117; 48; 48; 52; 50; 92; 49; 48; 51] = Ok (PTree (PRoot 0 (BSingle (PnMulti 0 [65; 66; 67])))) /\
+  c19_parse 0 [92; 113] = Err E_UnrecognizedEscape /\
+  c19_parse PL_ECMAScript [92; 113] = Ok (PTree (PRoot 256 (BSingle (PnOne 256 113)))) /\
+  c19_parse 0 [92; 120; 123; 52; 103; 125] = Err E_MissingBrace /\
+  c19_parse PL_ECMAScript [92; 120; 123; 52; 103; 125] = Ok (PTree (PRoot 256 (BSingle (PnMulti 256 [120; 123; 52; 103; 125])))) /\
+  c19_parse 0 [92; 120; 52] = Err E_TooFewHex /\
+  c19_parse 0 [92; 49] = Err E_UndefinedBackRef /\
+  c19_parse 0 [92; 107; 60; 48; 62] = Ok (PTree (PRoot 0 (BSingle (PnRef 0 0)))) /\
+  c19_parse 0 [92; 100; 92; 100] = Ok (PTree (PRoot 0 (BSingle (PnSetLoop 0 (-100) 2)))) /\
+  c19_parse 0 [92] = Err E_IllegalEndEscape.
+Proof. vm_compute. repeat split. Qed.
+(* the reference semantics on the anchored literal tree: matches s, rejects a near miss *)
+Example C19_sem_witness :
+  let root := node_of_ptree (PRoot 0 (anchored_body 0 [97; 46])) in
+  let env_of := fun t => {| txt := t; tstart := 0; ecma := false; endz_strict := false; set_in := fun _ _ => false;
+                            lower := fun r => r; is_word := c19_word; is_eword := c19_word |} in
+  find (env_of [97; 46]) 5 root false 0 (-1) = Ok (Some {| pos := 2; caps := [(0, [(0, 2)])] |}) /\
+  find (env_of [97; 98]) 5 root false 0 (-1) = Ok None /\
+  find (env_of [97; 46; 46]) 5 root false 0 (-1) = Ok None.
+Proof. vm_compute. repeat split. Qed.
